@@ -1630,7 +1630,7 @@ theorem C03_sender_eof_expiry_call (env : Source.Env) (s : Source.SrcSt) (t : Ti
     (hlim : s.p.ackCounter + 1 < rc.ackLim)
     (hreq : s.putReq = some req) (hsrc : req.src = some src) (hmo : s.p.metadataOnly = false)
     (hfile : s.fs.get src = some (.file F)) (hnull : Checksum.CksType.ofNat rc.cks ≠ .null)
-    (hcks : Checksum.calcChecksum (Checksum.CksType.ofNat rc.cks) F s.p.fileSize s.p.segmentLen = .ok cks)
+    (hcks : Checksum.calcChecksum (Checksum.CksType.ofNat rc.cks) F s.p.progress s.p.segmentLen = .ok cks)
     (hlen : cks.length = 4) (hcond : s.p.condCodeEof = some ccNoError) (htid : s.p.tid = some tid) :
     Source.stateMachine env none s =
       .ok () { s with p := C04.bumpSrcP s.p env.now t.timeout (s.p.ackCounter + 1),
@@ -1712,7 +1712,7 @@ theorem C03_end_to_end_eof_loss (envS : Source.Env) (envD : Dest.Env) (s : Sourc
   -- the expiry
   have hE := C03_sender_eof_expiry_call ⟨envS.cfg, tE⟩ s3 ⟨envS.now, rcS.ackMs⟩ rcS req src F crc
     ⟨envS.cfg.entityId, ⟨s.prov.next, s.prov.bits / 8⟩⟩ hS3.hbusy hstep3 hS3.hqueue htm3 hS3.hrc hexp
-    (by rw [hcnt3]; exact hlim) hS3.hreq hS3.hsrc hmo3 hS3.hfile hnull (by rw [hsz3, hS3.hseg]; exact hcks) hlen hcond3
+    (by rw [hcnt3]; exact hlim) hS3.hreq hS3.hsrc hmo3 hS3.hfile hnull (by rw [hS3.hprog, hS3.hseg]; exact hcks) hlen hcond3
     hS3.htid
   rw [hS3.hconf, hS3.hprog] at hE
   -- the EOF at the receiver
